@@ -43,6 +43,7 @@ func main() {
 		"C06": "non-trivial = distinct (request, wallet state: coin statuses, spenders, locks, leases) pairs for which a created transaction's inputs were compared with the eligible set / a refusal was required",
 		"C20": "non-trivial = distinct (operation incl. backend answer class, wallet state) pairs after which balances, spendable set, recorded transactions (and the re-broadcast log after restarts) were compared",
 		"C16": "non-trivial = distinct usage patterns (window, lock state, used addresses, unspent outputs) recovered and compared, distinct invalid-child sets driven through BranchRecoveryState, and distinct (timestamp sequence, birthday) pairs with a payable block",
+		"C02": "wallet-level pass: non-trivial = distinct (backend chain, transaction placement, last operation) quiescent states compared",
 		"C15": "non-trivial = distinct (backend chain of block ids, wallet transaction placement, last operation) quiescent states of a running wallet that were compared",
 	}[*prop]
 	if *spec == "race-addr" {
@@ -52,6 +53,10 @@ func main() {
 			fmt.Fprintln(os.Stderr, err)
 			os.Exit(2)
 		}
+		if raceHung {
+			os.RemoveAll(root)
+			os.Exit(0)
+		}
 		return
 	}
 	err = common.ForEachLine(*in, *workers, func(idx int, line []byte) {
@@ -60,7 +65,7 @@ func main() {
 		}
 		switch *spec {
 		case "chainsync":
-			replayChainSync(idx, line, *seed, root, rep)
+			replayChainSync(idx, line, *prop, *seed, root, rep)
 		case "spend":
 			replaySpend(idx, line, *prop, *seed, root, rep)
 		case "recovery-branch":
